@@ -260,6 +260,68 @@ func init() {
 	regExt("io.ReadSeeker.Seek", "abstract seekable reader: Seek(off, io.SeekStart) with 0<=off<=len succeeds or fails; on success position and decoder monitors are those of prefix off", ghostKeys("rpos", "rz", "rpay", "rplen"), seek)
 	regExt("io.Seeker.Seek", "see io.ReadSeeker.Seek", ghostKeys("rpos", "rz", "rpay", "rplen"), seek)
 
+	regExt("bytes.NewReader", "returns a fresh reader positioned at 0 over exactly the bytes of b (abstract reader ghost state initialised; decoder monitors at their initial values)",
+		append(ghostKeys("rdata", "rlen", "rpos", "rz", "rpay", "rplen"), "$alloc"), func(e *Enc, fr *Frame, args []Val, st *State, reach string, pos token.Pos, rt types.Type) Val {
+			b := args[0]
+			r := e.newRef(st)
+			m := e.get(st, "M|uint8", BV(8))
+			data := e.fresh("rdata", ArrS(BV(8)))
+			e.assume(imp(reach, fmt.Sprintf("(forall ((j (_ BitVec 64))) (! (=> (and (bvsle (_ bv0 64) j) (bvslt j %s)) (= (select %s j) (select (select %s %s) (bvadd %s j)))) :pattern ((select %s j))))", b.sLen(), data, m, b.sRef(), b.sOff(), data)))
+			e.declDecoderFns()
+			e.gset(st, "rdata", r, data)
+			e.gset(st, "rlen", r, b.sLen())
+			e.gset(st, "rpos", r, c64(0))
+			e.gset(st, "rz", r, c64(0))
+			e.gset(st, "rplen", r, c64(0))
+			e.gset(st, "rpay", r, app("RPAY", data, c64(0)))
+			e.assume(and(eq(app("RZ", data, c64(0)), c64(0)), eq(app("RPLEN", data, c64(0)), c64(0))))
+			return Val{T: rt, L: []string{r}}
+		})
+	regExt("bytes.NewBuffer", "returns a fresh buffer (as reader: the bytes of buf from position 0; as writer: nothing written yet)",
+		append(ghostKeys("rdata", "rlen", "rpos", "rz", "rpay", "rplen", "wlen", "wz", "wesc", "plen"), "$alloc"), func(e *Enc, fr *Frame, args []Val, st *State, reach string, pos token.Pos, rt types.Type) Val {
+			b := args[0]
+			r := e.newRef(st)
+			m := e.get(st, "M|uint8", BV(8))
+			data := e.fresh("rdata", ArrS(BV(8)))
+			e.assume(imp(reach, fmt.Sprintf("(forall ((j (_ BitVec 64))) (! (=> (and (bvsle (_ bv0 64) j) (bvslt j %s)) (= (select %s j) (select (select %s %s) (bvadd %s j)))) :pattern ((select %s j))))", b.sLen(), data, m, b.sRef(), b.sOff(), data)))
+			e.declDecoderFns()
+			e.gset(st, "rdata", r, data)
+			e.gset(st, "rlen", r, b.sLen())
+			e.gset(st, "rpos", r, c64(0))
+			e.gset(st, "rz", r, c64(0))
+			e.gset(st, "rplen", r, c64(0))
+			e.gset(st, "rpay", r, app("RPAY", data, c64(0)))
+			e.assume(and(eq(app("RZ", data, c64(0)), c64(0)), eq(app("RPLEN", data, c64(0)), c64(0))))
+			e.gset(st, "wlen", r, c64(0))
+			e.gset(st, "wz", r, c64(0))
+			e.gset(st, "wesc", r, "false")
+			e.gset(st, "plen", r, c64(0))
+			return Val{T: rt, L: []string{r}}
+		})
+	regExt("io.ReadAll", "returns the remaining bytes of the abstract reader (fresh slice of length rlen-rpos) or an error", append(ghostKeys("rpos", "rz", "rpay", "rplen"), "$alloc", "elem:uint8"),
+		func(e *Enc, fr *Frame, args []Val, st *State, reach string, pos token.Pos, rt types.Type) Val {
+			r := args[0].L[1]
+			err := e.freshErr(st, reach, errorType())
+			rpos := e.gget(st, "rpos", r)
+			rlen := e.gget(st, "rlen", r)
+			ref := e.newRef(st)
+			n := e.fresh("n", bv64)
+			e.assume(imp(reach, and(app("bvsle", c64(0), n), app("bvsle", n, c64(maxLen)), imp(and(eq(err.L[0], c64(0)), app("bvsle", c64(0), rpos), app("bvsle", rpos, rlen)), eq(n, app("bvsub", rlen, rpos))))))
+			m := e.get(st, "M|uint8", BV(8))
+			e.set(st, "M|uint8", BV(8), sto(m, ref, e.fresh("readall", ArrS(BV(8)))), ref)
+			for _, f := range []string{"rpos", "rz", "rpay", "rplen"} {
+				e.gset(st, f, r, e.fresh("gh_"+f, ghostFields[f].S))
+			}
+			return Val{T: rt, L: []string{ref, c64(0), n, n, err.L[0], err.L[1]}}
+		})
+	regExt("encoding/hex.EncodeToString", "returns some string of length 2*len(src)", []string{"$alloc"},
+		func(e *Enc, fr *Frame, args []Val, st *State, reach string, pos token.Pos, rt types.Type) Val {
+			r := e.havocVal(rt, "hex")
+			e.wfAssume(st, reach, r)
+			e.assume(imp(reach, eq(r.sLen(), bvadd(args[0].sLen(), args[0].sLen()))))
+			return r
+		})
+
 	for _, name := range []string{"fmt.Errorf", "errors.New"} {
 		nm := name
 		regExt(nm, "returns a non-nil error; no effect on modelled state", []string{"$alloc"},
